@@ -133,6 +133,14 @@ def run(ctx):
             xs[rng.randrange(nel)] = rng.choice(["t", G.enc_str("s"), "n", "[ ]"])
         for e in ("[*].abs(@)", "map(&abs(@), @)", "[?abs(@) > `0`]", "sum(@)"):
             sized.append(C.hexs(e) + "\t[ " + " ".join(xs) + " ]")
+    # well-typed arrays whose lengths surround the powers of two from 1024 up and are NOT multiples of 2, 4, 8: however a build splits, chunks or
+    # vectorises the work, every element must be processed exactly once, in order (results observed through length, ends and equality)
+    for nel in ([1023, 1025, 1026, 1027, 2049, 4099] if q else [1023, 1024, 1025, 1026, 1027, 1029, 1031, 2047, 2049, 2050, 2051, 4095, 4097, 4099, 8193]):
+        d = "[ " + " ".join("u%d" % ((i * 7) % 1000) for i in range(nel)) + " ]"
+        for e in ("length(map(&@, @))", "map(&@, @) == @", "map(&@, @)[-1]", "map(&abs(@), @)[-3:]", "sort(@)[-1]", "length(sort_by(@, &@))", "sort_by(@, &@)[-2:]", "length([*])",
+                  "[*].abs(@) | [-1]", "reverse(@)[0]", "sum(@)", "avg(@)", "max(@)", "min_by(@, &@)", "max_by(@, &@)", "[?@ >= `0`] | length(@)", "length([])",
+                  "length(@)", "join('', map(&to_string(@), @)) | length(@)", "[::-1][0]", "[1:] | length(@)", "length(to_string(@))", "contains(@, `6`)"):
+            sized.append(C.hexs(e) + "\t" + d)
     streams["eval"] = streams["eval"] + sized
     if getattr(ctx, "replay", None):
         streams = {ctx.replay["stream"]: [ctx.replay["case"]]}
